@@ -1,0 +1,16 @@
+//go:build verif
+
+package memoization
+
+// VerifYield, when set, is called at the named points between the memoizer's
+// critical sections (cache check, forwarded call, cache fill, cache clear,
+// forwarded write). It exists only in builds with the "verif" tag and is used
+// by the verification harness to force interleavings deterministically.
+// A nil value (the default) makes every yield point a no-op.
+var VerifYield func(point string)
+
+func verifYield(point string) {
+	if f := VerifYield; f != nil {
+		f(point)
+	}
+}
